@@ -188,6 +188,18 @@ CHECKS = [
       note='Trusted base: the class composition (one name substituted in the neo4j_cbm module namespace) and the reference union (~40 '
            'lines). Neo4j/APOC node-merge semantics are represented by the in-memory merge_nodes (C05). Domain restriction: one model '
            'speaks per shared element, other properties agree.'),
+ dict(property_id='C19', engine='E4-env', level='exploration',
+      technique='model checking: exhaustive enumeration of backend operations x value positions x adversarial values x environment answers at the driver boundary',
+      text='57 public operations of the real Neo4j backend classes (property graph CRUD, bulk updates, queries, merge, diff, validation, '
+           'clone, importer bookkeeping and imports, slice-model and combined-model queries, unmerge, snapshot/rollback, delegation '
+           're-keying) run against a recording stand-in driver. For each operation: the baseline call, every value position set to each of '
+           '12 adversarial strings (quotes, backslash, braces, doubled braces, dollar, newline, an injection string, a keyword, empty, '
+           'non-ASCII) one position at a time and all jointly, under three environment answers for all calls and every single-call '
+           'deviation. Every recorded (statement, parameters) pair (~150k per run) is judged: balanced brackets and quotes under Cypher '
+           'string rules, no template residue, named parameters supplied, used variables bound; and the text may differ from the baseline '
+           'only inside one string literal that de-escapes to the value. Violations are attributed to the statement-building call site.',
+      note='Lexical judgement only (no Cypher parser or server in the sandbox). Eight open findings: call sites that splice stored '
+           'values or the graph id into the statement text unescaped.'),
 ]
 _claimed = {c['property_id'] for c in CHECKS}
 NOT_APPLICABLE = [dict(property_id=p, reason='check not built yet in this revision (work in progress; model checking applies, see DESIGN.md)')
